@@ -42,7 +42,9 @@ def cases(ctx):
     # fixed points and values converting to exactly zero, comparisons and sums across units
     pts = [(F(0), 'degC'), (F(32), 'degF'), (F(27315, 100), 'K'), (F(-40), 'degC'), (F(-40), 'degF'), (F(0), 'K'),
            (F(-45967, 100), 'degF'), (F(-27315, 100), 'degC'), (F(100), 'degC'), (F(212), 'degF'), (F(37315, 100), 'K'),
-           (F(-160, 9), 'degC'), (F(0), 'degF'), (F(1, 4), 'K'), (F(20), 'degC'), (F(68), 'degF'), (F(29315, 100), 'K')]
+           (F(-160, 9), 'degC'), (F(0), 'degF'), (F(1, 4), 'K'), (F(20), 'degC'), (F(68), 'degF'), (F(29315, 100), 'K'),
+           # equal temperatures whose amounts have opposite signs
+           (F(-10), 'degC'), (F(14), 'degF'), (F(26315, 100), 'K'), (F(-5, 9), 'degC'), (F(31), 'degF')]
     for (a, u), (b, v) in itertools.product(pts, pts):
         for c in (CMPS if not quick else rnd.sample(CMPS, 3)):
             cs.append(dict(op='tcmp', table='temp', a=qj(a), u=u, b=qj(b), v=v, c=c))
@@ -60,7 +62,7 @@ def cases(ctx):
             if pat >> j & 1:
                 rows.append(dict(f=f, t=t, fac=qj(facs[(j + pat) % 3]), off=qj(offs[(j * 2 + pat) % 3]),
                                  frep=['frac', 'dec', 'int'][(j + pat) % 3] if facs[(j + pat) % 3].denominator in (1, 2) else 'frac',
-                                 orep='dec'))
+                                 orep='int' if offs[(j * 2 + pat) % 3].denominator == 1 and (j + pat) % 2 else 'dec'))
         for r in rows:
             if r['frep'] == 'int' and F(*[1, 1]) and (sum(l * 10000 ** i for i, l in enumerate(r['fac']['d'])) != 1):
                 r['frep'] = 'dec'
@@ -87,6 +89,13 @@ def cases(ctx):
     # order-reversing scales (negative factor): conversion, equality and sums; ordering is left out because the
     # property does not say in whose unit two amounts on an order-reversing scale are to be compared
     neg = [[row('x', 'y', F(-1), F(100))], [row('x', 'y', F(-3, 2), F(150)), row('y', 'x', F(-2, 3), F(100))]]
+    ints = [dict(f='x', t='y', fac=qj(F(5)), off=qj(F(32)), frep='int', orep='int'),
+            dict(f='y', t='z', fac=qj(F(3)), off=qj(F(-7)), frep='int', orep='int')]
+    for a in (F(47), F(32), F(0), F(-13), F(1, 3), F(5, 2)):
+        for u, v in itertools.product('xyz', 'xyz'):
+            cs.append(dict(op='tconv', table='user', tkey='ints', rows=ints, form='map', a=qj(a), u=u, v=v,
+                           rep='frac' if a.denominator == 3 else ('dec' if a.denominator == 2 else 'int')))
+            cs.append(dict(op='tcmp', table='user', tkey='ints', rows=ints, form='map', a=qj(a), u=u, b=qj(F(47)), v=v, c='eq'))
     for j, (r1, r2) in enumerate(two):
         key = 'two%d' % j
         for a in (F(5), F(-3, 4), F(0), F(10, 3)):
